@@ -96,7 +96,14 @@ func main() {
 		sc.Buffer(make([]byte, 1<<20), 1<<26)
 		w := bufio.NewWriterSize(os.Stdout, 1<<20)
 		defer w.Flush()
+		lastFlush := time.Now()
 		for sc.Scan() {
+			// answers reach the checker while the run is in progress: it watches for progress, and
+			// what was answered before a crash or a hang must not be lost in the buffer
+			if w.Buffered() > 0 && time.Since(lastFlush) > 50*time.Millisecond {
+				w.Flush()
+				lastFlush = time.Now()
+			}
 			line := sc.Text()
 			f := strings.Fields(line)
 			if len(f) == 0 {
